@@ -36,6 +36,10 @@ pub struct Profile {
     pub wild_values: bool,
     /// only values that survive a JSON round trip (no NaN / infinity), for the server API
     pub json_safe: bool,
+    /// percentage of histories that contain a "grow and shrink" episode: one insert of 61-75
+    /// aliased nodes carrying an indexed key with distinct values (the alias map and the index
+    /// grow past their 64-slot minimum), and later one removal of most of them (both shrink back)
+    pub grow_shrink_pct: u32,
 }
 
 impl Profile {
@@ -62,6 +66,7 @@ impl Profile {
             values_on_insert: true,
             wild_values: true,
             json_safe: false,
+            grow_shrink_pct: 0,
         }
     }
 }
@@ -530,9 +535,32 @@ pub fn history(p: &Profile, min: usize, max: usize) -> BoxedStrategy<Vec<Step>> 
         aliases: vec![],
         ids: QIds::Ids(vec![]),
     });
-    prop::collection::vec(step(p), min..=max)
-        .prop_map(move |mut v| {
+    let pct = p.grow_shrink_pct;
+    (prop::collection::vec(step(p), min..=max), 0u32..100, 61usize..=75, any::<u16>(), any::<u16>(), 0usize..=8)
+        .prop_map(move |(mut v, dice, k, at1, at2, keep)| {
             v.insert(0, prelude.clone());
+            if dice < pct {
+                let names: Vec<String> = (0..k).map(|i| format!("g{i}")).collect();
+                let key = crate::val::key_pool()[0].clone();
+                let grow = vec![
+                    Step::Q(CQuery::InsertIndex(key.clone())),
+                    Step::Q(CQuery::InsertNodes {
+                        count: 0,
+                        values: QVals::Multi((0..k).map(|i| vec![(key.clone(), Val::I64(1000 + i as i64))]).collect()),
+                        aliases: names.clone(),
+                        ids: QIds::Ids(vec![]),
+                    }),
+                ];
+                // most of them go again later: nodes, aliases and index entries
+                let gone: Vec<QId> = names.iter().take(k - keep.min(k - 1)).map(|n| QId::Alias(n.clone())).collect();
+                let shrink = Step::Q(CQuery::Remove(QIds::Ids(gone)));
+                let p1 = 1 + crate::core::pick(at1, v.len());
+                for (i, s) in grow.into_iter().enumerate() {
+                    v.insert((p1 + i).min(v.len()), s);
+                }
+                let p2 = p1 + 2 + crate::core::pick(at2, v.len() - (p1 + 1).min(v.len()) + 1);
+                v.insert(p2.min(v.len()), shrink);
+            }
             v
         })
         .boxed()
